@@ -9,8 +9,16 @@ CLAIMED = {
    technique="explicit-state BFS over the real rleEncoder to closure + bounded-exhaustive enumeration of frames/geometries through rle.Codec",
    text="Explicit-state search of the real RLE encoder automaton (every reachable (segments, prev-relation, repeatCnt, bufferPos, parity) state, invariant checked in each by finishing the stream and decoding it with the repo decoder and an independent PackBits reader) plus exhaustive enumeration of every frame of <= 12 bytes over a 3-symbol alphabet for every accepted geometry and every <=3 macro-op content with boundary run/literal lengths. Covers all threshold coincidences (2/3, 127..130, 255..258) that unit tests sample.",
    note="Trusted: the reference PackBits/Annex G reader in /verif/harness/ref; data-independence argument for the automaton key (the encoder compares bytes only for equality with prevByte). Nothing is claimed for contents outside the enumerated alphabets/macro families above 12 bytes."),
-}
 
+ "C02": dict(engine="E1 space", design="§4 C02",
+   technique="bounded-exhaustive enumeration of images x precision x predictor through lossless.Encode/Decode and lossless14sv1, plus exhaustive component-level enumeration (65536 differences, 131071 category subsets)",
+   text="Every image of <= 4-5 samples over a 6-symbol boundary alphabet (all values for P<=3) for every precision 2..16, every predictor 0..7 and SV1, 1 and 3 components; every one of the 65536 difference values end to end; every non-empty subset of the 17 Huffman categories x 4 frequency shapes through BuildOptimalHuffmanTable/BuildHuffmanCodes/Decode. These products contain every wrap/extreme coincidence (P=15 with predictors 4-6, category 16) that fixed test images miss.",
+   note="Contents above 5 samples come from 6 structured families (not all contents). Sample-domain convention of the property (unused high bits zero)."),
+ "C13": dict(engine="E1 space + reference codec", design="§4 C13",
+   technique="bounded-exhaustive cross-implementation enumeration: library streams into an independent T.81 Annex H decoder, reference-encoder streams (predictor x P x Td x table shape x segment layout x tiny images) into the library decoders",
+   text="(a) every stream of the C02 space is decoded by an independent T.81 Annex H decoder written from the standard and must equal the source; (b) a reference encoder enumerates conformant streams over predictor 1..7, P 2..16, Td assignments 0..3 per component, 8 Huffman table shapes (incl. 16-bit codes, >8-bit-only), APPn/COM, DHT before/after SOF, all images <= 4 samples over boundary alphabets; lossless.Decode / lossless14sv1.Decode must return the source. The reference pair is self-validated on every case.",
+   note="Trusted: /verif/harness/ref/t81lossless.go (T.81 H.1.2.1 edge rules, modulo 2^16 arithmetic, Annex C/K Huffman procedures). Restart intervals and point transform are outside the explored stream space."),
+}
 NOT_APPLICABLE = {}
 
 def main():
